@@ -930,7 +930,7 @@ func checkPool(sc poolScenario, r *poolResult) []connVerdict {
 		pooled := countPooled(r.obs[i], addr)
 		end := len(r.actions)
 		for j := i + 1; j < len(r.actions); j++ {
-			if r.actions[j] == "kill "+addr || r.actions[j] == "close" {
+			if r.actions[j] == "kill "+addr || r.actions[j] == "bounce "+addr || r.actions[j] == "close" {
 				end = j
 				break
 			}
